@@ -45,8 +45,9 @@ CHECKS = {
                 "exact map updates of set_mutation_tick/remove_entity, index counter wraps at 2^16; plus the emptiness test that decides whether a mutate message is sent.",
         "design_ref": "DESIGN.md §4 U4, U5, U7, §5 C11",
         "note": "Assumed: hashbrown map semantics, Tick::is_newer_than formula (validated by Kani against bevy). One stated mechanical normalisation (let-else-continue -> if-let) because Verus for-loops do not support continue. "
-                "Change detection in collect_changes, send_messages, receive_acks and the client acknowledging every message are Bevy systems: covered only by a BOUNDED native stand-in (u05s: real server and client app, every operation sequence to depth 4/6 "
-                "with lost mutate messages and held, replayed and unknown acknowledgements; labelled bounded, not counted as proved). Not covered: time-based cleanup firing (cleanup_acks' timer), several clients, per-tick mutate-message tracking.",
+                "Change detection in collect_changes, send_messages, receive_acks and the client acknowledging every message are Bevy systems: covered only by BOUNDED native stand-ins (u05s: real server and client app, every operation sequence to depth 4/5 "
+                "with lost mutate messages, held, replayed and unknown acknowledgements, mutate messages overtaking their update message, a pre-spawned mapping; u07s: partial acknowledgement of a split tick; u05p: a Periodic component next to an every-tick one; labelled bounded, not counted as proved). "
+                "One OPEN known finding (F11, known_findings.json): a Periodic component changed off-period is skipped when the entity is acknowledged through another component first - the check prints KNOWN-FINDING and exits 0. Not covered: time-based cleanup firing (cleanup_acks' timer), several clients.",
         "technique": "contract-based deductive verification: Verus requires/ensures/loop invariants woven onto verbatim-extracted functions; Kani contract harnesses for the integer-level parts",
     },
     "C08": {
